@@ -326,11 +326,7 @@ Definition ins_stats (st : N * N) (replaced : option entry) (is_new filtered : b
   end.
 
 Definition ins_out (t : table) (d0 d2 : dest) (net : N) (replaced : option entry) (filtered : bool) : out :=
-  (* while deferring nothing is reported, except the withdrawal of a prefix
-     whose last eligible path this insert takes away (end_deferral re-emits
-     only prefixes that have an eligible path) *)
-  if t_deferring t && negb (match best_key d0, best_key d2 with Some _, None => true | _, _ => false end)
-  then ONoChange
+  if t_deferring t then ONoChange
   else
     let best_changed := negb (key_eqb (best_key d0) (best_key d2)) in
     let any_changed := negb filtered ||
